@@ -95,7 +95,9 @@ func (s *DiskKeyIndex) binarySearch(target []byte) (uint64, *proto.IndexEntry, b
 		at, err := s.findAt(h)
 		if err != nil {
 			if errors.Is(err, io.EOF) {
-				return n, nil, false, nil
+				// no record starts at or after h, which is the defined cmp(x[n], target) >= 0
+				j = h
+				continue
 			}
 			return 0, nil, false, err
 		}
